@@ -817,7 +817,8 @@ func (c *Ctx) checkLayoutSemantics(r *Report, ro *Roles, rule string) (jsonOK, t
 		}
 		return fmt.Sprintf("fields [%s] ctxString=%q file=%.20q width=%d", strings.Join(ss, ", "), ev.ctxString, ev.file, ev.width)
 	}
-	for _, ev := range evs {
+	freshJ, freshT := map[int][]byte{}, map[int][]byte{}
+	for evIdx, ev := range evs {
 		if oodJ != "" && oodT != "" {
 			break
 		}
@@ -826,6 +827,9 @@ func (c *Ctx) checkLayoutSemantics(r *Report, ro *Roles, rule string) (jsonOK, t
 		haveJ := false
 		if oodJ == "" {
 			out, _, err := w.run(jsonLay, ev)
+			if err == nil && ev.strVars == "" {
+				freshJ[evIdx] = out
+			}
 			runs++
 			if err != nil {
 				if _, isOOD := err.(oodError); isOOD {
@@ -893,6 +897,9 @@ func (c *Ctx) checkLayoutSemantics(r *Report, ro *Roles, rule string) (jsonOK, t
 		}
 		if oodT == "" {
 			out, _, err := w.run(textLay, ev)
+			if err == nil && ev.strVars == "" {
+				freshT[evIdx] = out
+			}
 			runs++
 			if err != nil {
 				if _, isOOD := err.(oodError); isOOD {
@@ -950,6 +957,47 @@ func (c *Ctx) checkLayoutSemantics(r *Report, ro *Roles, rule string) (jsonOK, t
 						failT("%s: the key=value part is %.140q, the JSON tokens of the same event give %.140q", describe(ev), rest, wantRest)
 					}
 				}
+			}
+		}
+	}
+	// (4a) history: the whole event list once more through both layouts in ONE evaluation state (buffer and encoder
+	// pools, caches, package variables persist from event to event, the layouts alternate): a line depends on its own
+	// event only, so every output must equal the one produced from a fresh state
+	if oodJ == "" && oodT == "" && len(badJ) == 0 && len(badT) == 0 {
+		ip := w.interp()
+		for evIdx, ev := range evs {
+			if ev.strVars != "" {
+				continue
+			}
+			for _, lay := range []*types.Named{textLay, jsonLay} {
+				fresh := freshT[evIdx]
+				if lay == jsonLay {
+					fresh = freshJ[evIdx]
+				}
+				if fresh == nil {
+					continue
+				}
+				out, _, err := w.runIn(ip, lay, ev)
+				runs++
+				if err != nil {
+					if _, isOOD := err.(oodError); isOOD {
+						// the shared state left the fragment: this pass decides nothing
+						evIdx = len(evs)
+						break
+					}
+					failT("%s, as event %d of a sequence in one evaluation state: %v", describe(ev), evIdx+1, err)
+					break
+				}
+				if !bytes.Equal(out, fresh) {
+					f := failT
+					if lay == jsonLay {
+						f = failJ
+					}
+					f("%s, as event %d of a sequence in one evaluation state (pools and caches warm), %s gives %.140q; from a fresh state the same event gives %.140q", describe(ev), evIdx+1, lay.Obj().Name(), out, fresh)
+				}
+			}
+			if len(badJ) > 0 || len(badT) > 0 || evIdx >= len(evs) {
+				break
 			}
 		}
 	}
